@@ -229,4 +229,17 @@ CHECKS["C15"] = {
     "assumptions": ["runtime monitoring: the verdict covers only the executions this run produced", "hook H6 (vsync facade) and H7 (BreakerBase::drop is a no-op while unwinding, schedulable build only)", "shuttle models Mutex/RwLock/Once/atomics/lazy_static; std::sync::Arc is used as is"],
 }
 
+CHECKS["C16"] = {
+    "package": "sched", "bin": "c16", "flavor": "sched", "replay": "rerun",
+    "shards": {"quick": 8, "thorough": 16},
+    "distinct_from_extra": "distinct_schedules",
+    "level": "exploration",
+    "technique": "runtime monitoring under controlled scheduling (shuttle): per-thread client-boundary results and the StateChangeListener log of every sampled schedule are checked by a trace oracle (path of the state machine, one winner per transition, one admission per Half-Open phase, no admission while Open before the retry time)",
+    "rule": "scenarios (x 3 breaker strategies) = {2,3 in-flight entries completing with a failure at once (each alone opens the breaker)} + {2,3 requests arriving exactly at / 1 ms before the retry time of an Open breaker} + {2,3 requests after the retry time racing with a stale failing completion} + {probe completion ok/fail x stale completion ok/fail x 1,2 new requests, all racing, from Half-Open}; 3000 (quick) / 60000 (thorough) executions per scenario split over random and PCT depth 1-3; evaluations = executions, distinct_nontrivial = distinct schedules (hash of scheduling decisions) summed over scenarios",
+    "level_text": "In every sampled schedule the listener log is a path of the machine that ends in current_state(); exactly one Closed->Open for simultaneous opening completions; exactly one request admitted and one Open->HalfOpen for simultaneous requests after the retry time, none 1 ms before it; after a failed completion re-opened the breaker nothing is admitted at the same instant; admissions while not Closed equal the number of Open->HalfOpen events; sampled, not exhaustive.",
+    "level_note": "The clock is fixed during the concurrent phase, so 'before the retry timeout' is decidable exactly. Schedules are sampled (random + PCT), the preemption-bounded exhaustive part of the quantifier is not delivered.",
+    "design_ref": "DESIGN.md §5 C16",
+    "assumptions": ["runtime monitoring: the verdict covers only the executions this run produced", "hook H6 (vsync facade), H7; virtual clock"],
+}
+
 NOT_APPLICABLE = {}
